@@ -502,6 +502,11 @@ fn run_case(w: &mut Worker, i: u64) -> CaseOut {
                     if i % 4 == 1 {
                         http_leg(w, &spec, &wr, &dir, &mut out);
                     }
+                    // (e) second release into the same targets directory (flat repositories only, so that the
+                    // cross-party step below and the legs above is not disturbed)
+                    if spec.delegations.is_empty() && !spec.targets.is_empty() {
+                        second_release(w, &spec, &wr, &dir, publish, &mut r, &mut out);
+                    }
                     // cross-party flow on one depth-1 role
                     if let Some(d) = spec.delegations.first() {
                         if !unmeetable && !dup_signers {
@@ -530,6 +535,73 @@ fn run_case(w: &mut Worker, i: u64) -> CaseOut {
     });
     w.cleanup(&dir);
     out
+}
+
+/// A second release: one target gets new content (staged in another input directory), the repository is
+/// re-signed through `from_repo` and the target is published again into the SAME targets directory
+/// with each way of treating the existing entry. If the publication reports success, the client must
+/// be served the new, signed content.
+fn second_release(w: &mut Worker, spec: &RepoSpec, wr: &Written, dir: &Path, publish: Publish, r: &mut Rng, out: &mut CaseOut) {
+    let wd = client::watchdog(w.cfg.tier);
+    let t = &spec.targets[0];
+    let Ok(tn) = TargetName::new(t.name.clone()) else { return };
+    let mut newc = t.content.clone();
+    newc.extend_from_slice(b" -- second release");
+    let exists = *r.pick(&[PathExists::Skip, PathExists::Replace, PathExists::Fail]);
+    let exists_name = match exists {
+        PathExists::Skip => "skip",
+        PathExists::Replace => "replace",
+        PathExists::Fail => "fail",
+    };
+    let ds = dir.join("ds-rel2");
+    std::fs::create_dir_all(&ds).unwrap();
+    let Ok(repo) = w.rt.block_on(load_dir(&wr.root_bytes, &wr.md, &wr.tg, &ds, wd)) else { return };
+    let md2 = dir.join("release2/metadata");
+    let base = Path::new(tn.resolved()).file_name().map(|f| f.to_string_lossy().to_string()).unwrap_or_else(|| "f".into());
+    let src = dir.join("input-release2").join(base);
+    std::fs::create_dir_all(src.parent().unwrap()).unwrap();
+    std::fs::write(&src, &newc).unwrap();
+    let res: Result<(), String> = w.rt.block_on(async {
+        let mut ed = RepositoryEditor::from_repo(&wr.root_path, repo).await.map_err(|e| client::full_error(&e))?;
+        ed.add_target(t.name.as_str(), mk_target(&TargetSpec::new(&t.name, &newc))).map_err(|e| client::full_error(&e))?;
+        ed.targets_version(nz(spec.tg_version + 1)).map_err(|e| e.to_string())?;
+        ed.targets_expires(far()).map_err(|e| e.to_string())?;
+        ed.snapshot_version(nz(spec.snap_version + 1)).snapshot_expires(far()).timestamp_version(nz(spec.ts_version + 1)).timestamp_expires(far());
+        let signed = ed.sign(&sources(&[0, 1, 2, 17, 3])).await.map_err(|e| client::full_error(&e))?;
+        signed.write(&md2).await.map_err(|e| client::full_error(&e))?;
+        match publish {
+            Publish::Copy => signed.copy_target(&src, &wr.tg, exists, Some(&tn)).await,
+            Publish::Link => signed.link_target(&src, &wr.tg, exists, Some(&tn)).await,
+        }
+        .map_err(|e| client::full_error(&e))
+    });
+    out.evals += 1;
+    let label = format!("publish={publish:?}:existing={exists_name}:consistent={}", spec.consistent);
+    match res {
+        Err(_) => out.h(format!("second-release:refused:{label}")),
+        Ok(()) => {
+            out.h(format!("second-release:accepted:{label}"));
+            let ds2 = dir.join("ds-rel2b");
+            std::fs::create_dir_all(&ds2).unwrap();
+            match w.rt.block_on(load_dir(&wr.root_bytes, &md2, &wr.tg, &ds2, wd)) {
+                Err(e) if e == "watchdog" => out.inconc("watchdog"),
+                Err(e) => out.viol("unloadable:cause=second-release", e),
+                Ok(rp) => {
+                    out.evals += 1;
+                    match w.rt.block_on(read_all(&rp, &t.name, wd)) {
+                        Ok(Some(b)) if b == newc => {}
+                        Err(e) if e == "watchdog" => out.inconc("watchdog"),
+                        // names the written repository cannot serve at all are the known finding K, not this rule
+                        _ if name_class(&t.name) != "inert" => {}
+                        other => out.viol(
+                            format!("second-release-not-served:{label}"),
+                            format!("{:?} was published again with new content and the publication reported success, but the client gets {:?}", t.name, other.map(|o| o.map(|b| b.len()))),
+                        ),
+                    }
+                }
+            }
+        }
+    }
 }
 
 static HTTPD: std::sync::OnceLock<crate::httpd::Server> = std::sync::OnceLock::new();
